@@ -5,7 +5,8 @@ from vlib.skel import families
 T_ASSUME = ["reference semantics R (DESIGN.md 2.3); opaque attributes/methods/functions are pure total uninterpreted functions; every collection has length <= N",
             "solver verdicts: unsat = holds for every dataset and interpretation within the bound; sat is replayed through CPython's eval and only reported if it reproduces; unknown = inconclusive",
             "a Q2 (error introduced) counterexample is reported only if the error also occurs under lazy evaluation",
-            "z3 5.1.0 (python API) is trusted; the encoder is validated on every program by replaying the Q0 model through CPython"]
+            "z3 5.1.0 (python API) decides; a sample of the queries (every 1000th per worker process in the quick tier, every 250th in the thorough tier) is dumped as SMT-LIB2 and "
+            "decided again by z3 4.8.12 and cvc5 1.0.3 - a differing definite answer is a harness error; the encoder is validated on every program by replaying the Q0 model through CPython"]
 
 
 def chunks(lst, n):
